@@ -36,6 +36,17 @@ def gen_case(rng, tier, i):
     from vlib import base
     from vlib.proggen import gen_program
     from vlib.refdevs import Ref, WARMUP
+    nstop = 4 if tier == "quick" else 12
+    if i >= plan(tier)["cases"] - nstop:
+        # a handler asks for a stop and then fails: under the continue strategies this is 'as if it had returned normally',
+        # so the stop stands (each case costs the library's 1 s self-wait of stop() on the run thread)
+        j = i - (plan(tier)["cases"] - nstop)
+        clock = ["float", "duration", "int"][j % 3]
+        lit = (lambda v: [float(v), "s"]) if clock == "duration" else (lambda v: int(v) if clock == "int" else float(v))
+        k = 2 + j % 4
+        return {"fam": "stop_then_fail", "strategy": ["log", "warn"][j % 2], "at": k, "kind": ["exc", "key", "exc", "base"][j % 4],
+                "prog": {"clock": clock, "rep": {"start": lit(0), "warmup": lit(0), "length": lit(20)},
+                         "init": [["abs", lit(t), 5, f"a{t}"] for t in range(1, 9)], "handlers": {f"a{k}": [["stopfail"]]}}}
     pidx, v = divmod(i, VARIANTS)
     seed = int(os.environ.get("VERIF_SEED", "0") or 0)
     prng = base.rng_for("c05-program", seed, tier, pidx)
@@ -98,7 +109,45 @@ def _with_faults(prog, faults, switches=()):
     return p
 
 
+def _stop_then_fail(case, ctx):
+    from vlib.simharness import Harness, InjectedAbort
+    prog = dict(case["prog"], strategy=case["strategy"])
+    h = Harness(prog)
+    res = {}
+
+    def on_action(model, a, parent):
+        res["stop"] = h.cmd("stop")
+        if case["kind"] == "base":
+            raise InjectedAbort("injected handler fault after stop()")
+        if case["kind"] == "key":
+            raise KeyError(parent)
+        raise RuntimeError("injected handler fault after stop()")
+    h.on_action = on_action
+    where = {"clock": prog["clock"], "strategy": case["strategy"], "handler_at": case["at"], "fault": case["kind"]}
+    try:
+        if h.cmd("initialize") != "ok" or h.cmd("start") != "ok" or not h.wait_quiescent(30):
+            ctx.viol("hang:stop-then-fail", {**where, "snapshot": h.snapshot()})
+            return
+        ctx.count("handlers_that_stop_and_then_fail")
+        times = [c for _, c in h.trace()]
+        snap = h.snapshot()
+        if res.get("stop") != "ok":
+            ctx.viol(f"stop-of-a-running-simulator-refused:{res.get('stop')}", where)
+            return
+        if times != list(range(1, case["at"] + 1)) or snap["run_state"] != "STOPPED":
+            ctx.viol("stop-requested-by-a-failing-handler-was-lost", {**where, "executed_times": times, "snapshot": snap})
+            return
+        if h.cmd("start") != "ok" or not h.wait_quiescent(30) or [c for _, c in h.trace()] != list(range(1, 9)):
+            ctx.viol("not-ended-at-the-end", {**where, "executed_times": [c for _, c in h.trace()], "snapshot": h.snapshot()})
+            return
+        ctx.nontrivial = True
+    finally:
+        h.cleanup()
+
+
 def run_case(case, ctx):
+    if case.get("fam") == "stop_then_fail":
+        return _stop_then_fail(case, ctx)
     from vlib.simharness import Harness, compare_traces, check_clock_monotone
     from vlib.refdevs import Ref, WARMUP
     prog = _with_faults(case["prog"], case["faults"], case.get("switches", ()))
